@@ -815,6 +815,23 @@ def compose_root(v, depth=0):
     return roots
 
 
+def translated_through_table(v, depth=0):
+    """is the written value obtained by looking a ``self`` attribute up in a constant dict (``TABLE.get(self.x, ...)`` /
+    ``TABLE[self.x]``)?  returns a short description or None"""
+    if depth > 8 or not isinstance(v, Sym):
+        return None
+    if v.op == 'call' and v.args and isinstance(v.args[0], Sym) and v.args[0].op == 'attr' and isinstance(v.args[0].args[0], DictV) and \
+            v.args[0].args[1] in ('get', 'pop', 'setdefault') and any(isinstance(x, SelfV) for x in v.args[1:]):
+        return 'dict.%s(%s)' % (v.args[0].args[1], ', '.join(show(x) for x in v.args[1:3]))
+    if v.op == 'index' and len(v.args) == 2 and isinstance(v.args[0], DictV) and isinstance(v.args[1], SelfV):
+        return 'dict[%s]' % show(v.args[1])
+    for a in v.args:
+        r = translated_through_table(a, depth + 1)
+        if r is not None:
+            return r
+    return None
+
+
 def compare_bindings(cmpn, presult, cls, model):
     binds = parse_bindings(presult, cls, model)
     for a, b in cmpn.pairs:
@@ -830,6 +847,11 @@ def compare_bindings(cmpn, presult, cls, model):
             continue
         pattrs = {x[0] for x in bl}
         cattrs = {r[0] for r in roots}
+        tr = translated_through_table(b.val)
+        if tr is not None and (pattrs & cattrs):
+            cmpn.diffs.append(Diff('binding', 'the composer does not write attribute %s as it is but looks it up in a table first (%s): the value parsed '
+                                   'at this position is stored unchanged, so the two sides disagree for every key of the table' % (sorted(pattrs & cattrs), tr), a, b))
+            continue
         if '*' in cattrs:
             continue
         if pattrs & cattrs:
